@@ -84,12 +84,15 @@ def queries(tier, prop='C19'):
         if sel is not None and (it, tuple(str(x) for x in ex)) not in sel:
             continue
         r = len(ex)
-        dmax = 4 if (tier == 'quick' or r >= 4) else 8
-        smax = 16 if tier == 'quick' else 64
+        if tier == 'quick':
+            dmax, smax, capmax = 4, 16, 32
+        else:
+            dmax, smax = {0: (8, 64), 1: (8, 64), 2: (8, 64), 3: (4, 16), 4: (3, 8)}[r]
+            capmax = 64
         cap = 1
         for x in ex:
             cap *= dmax if x == D else x
-        cap = min(cap, 256)
+        cap = min(cap, capmax)   # mdarray container size; q_mda assumes the index space fits
         oit = 'int' if it in ('long', 'unsigned long') else 'long'
         cfg = {'IT': it, 'OIT': oit, 'RANK': r, 'CAP': cap, 'DMAX': dmax, 'SMAX': smax}
         for k, x in enumerate(ex):
@@ -108,7 +111,7 @@ def queries(tier, prop='C19'):
             ents += ['q_trleft', 'q_trright', 'q_trleft_stride', 'q_trright_stride']
         for e in ents:
             big = cap * 4 + 40 if e == 'q_mda' else 48
-            q = dict(entry=e, cfg=cfg, unwind=(cap + 3 if e == 'q_mda' else 9), unwindset={'ll_memset.0': big, 'll_memcpy.0': big, 'll_memmove.0': big, 'll_memmove.1': big}, budget=120 if tier == 'quick' else 600, ub=ub, nofunc=ub)
+            q = dict(entry=e, cfg=cfg, solver=os.environ.get('C19_SOLVER', 'minisat'), unwind=(cap + 3 if e == 'q_mda' else 9), unwindset={'ll_memset.0': big, 'll_memcpy.0': big, 'll_memmove.0': big, 'll_memmove.1': big}, budget=120 if tier == 'quick' else 600, ub=ub, nofunc=ub)
             # configurations that lie wholly inside an open known-finding region (HARNESS.md): only the confirm query uses them
             if 'C19_extents_ctor_all_values' in opn and e in ('q_ctor_all', 'q_md_ctor_all') and mixed:
                 q['confirm_only'] = True
